@@ -107,8 +107,10 @@ def fact_goals(it, gs, fact, Sres, head, body, V):
 class Harness:
     """Symbolically executes cfg.CFG.<qual> on a symbolic grammar; `setup` customises globals/args/hooks."""
 
-    def __init__(self, qual, hyps=(), lengths=None, nofork=False):
+    def __init__(self, qual, hyps=(), lengths=None, nofork=False, together=False, carried_ok=()):
         self.nofork = nofork
+        self.together = together      # all the generic rules of `lengths` in ONE execution (cross-iteration interference is visible)
+        self.carried_ok = set(carried_ok)
         self.qual = qual
         self.fn = source.find(CFG, qual)
         self.hyps = set(hyps)
@@ -134,7 +136,15 @@ class Harness:
     def run(self, make_args, post, hooks=None):
         """post(it, gs, ret) -> list of (label, [goal formulas]); returns list of (path, result)."""
         fn = self.fn
-        if self.lengths is not None and len(self.lengths) > 1:
+        if not self.together:
+            # generic-rule proof rule: sound only if an iteration of a rule loop does not depend on earlier iterations
+            from vlib.pyvc import loopdep
+            bad = [(ln, nm, how) for ln, src, ws in loopdep.carried(fn, lambda src: src in ("self", "self.rules")) for nm, how in ws
+                   if not how.startswith("build") and nm not in self.carried_ok]
+            if bad:
+                raise I.OutOfSubset(f"rule loop at line {bad[0][0]} carries state across iterations ({bad[0][1]}: {bad[0][2]}); "
+                                    "the one-generic-rule abstraction does not apply")
+        if self.lengths is not None and len(self.lengths) > 1 and not self.together:
             # one generic rule of each arity, each in its own execution (keeps the path count additive)
             out = []
             for k in self.lengths:
@@ -196,8 +206,8 @@ def result_rules(it, gs, ret):
 
 
 def check_fact(run, name, qual, fact, hyps=(), lengths=None, make_args=None, hooks=None, allow_assert=False, role="property",
-               nofork=False):
-    h = Harness(qual, hyps=hyps, lengths=lengths, nofork=nofork)
+               nofork=False, carried_ok=()):
+    h = Harness(qual, hyps=hyps, lengths=lengths, nofork=nofork, carried_ok=carried_ok)
     run.function_under_contract("genlm.grammar.cfg." + qual, source.sha(h.fn))
 
     def post(it, gs, ret):
@@ -515,7 +525,7 @@ def proved(run):
     est("CFG.separate_start", "SR")
     pres("CFG.separate_start", "A2")
     pres("CFG.separate_start", "T")
-    est("CFG.separate_terminals", "T", hooks=hooks_separate_terminals)
+    est("CFG.separate_terminals", "T", hooks=hooks_separate_terminals, carried_ok=("_preterminal",))   # modelled by the InvDict invariant
     est("CFG._push_null_weights", "NN", lengths=[0, 1, 2, 3], make_args=args_push_null, allow_assert=True, nofork=True)
     pres("CFG._push_null_weights", "A2", lengths=[0, 1, 2], make_args=args_push_null, allow_assert=True, nofork=True)
     pres("CFG._push_null_weights", "T", lengths=[0, 1, 2], make_args=args_push_null, allow_assert=True, nofork=True)
